@@ -2,12 +2,12 @@
 # usage: dev_refactor.sh <patch.diff> <Cxx>...  -- development aid: applies a patch to a scratch worktree
 # (/var/tmp/devrepo, created on demand) and runs the given checks with bin/scioncheck-dev against it.
 cd /verif && . ./env.sh
-D=/var/tmp/devrepo
+D=${DEVREPO:-/var/tmp/devrepo}
 [ -d $D ] || git -C /repo worktree add --detach $D HEAD >/dev/null 2>&1
 git -C $D checkout -q -- . ; git -C $D clean -fdq
 patch=$1; shift
 git -C $D apply $patch || exit 3
 for p in "$@"; do
-  SCIONCHECK_REPO=$D ./bin/scioncheck-dev -p $p 2>&1 | grep -E "^  key=|^result|^BROKEN|^    " | head -${LINES_MAX:-12}
+  SCIONCHECK_REPO=$D ${DEVBIN:-./bin/scioncheck-dev} -p $p 2>&1 | grep -E "^  key=|^result|^BROKEN|^    " | head -${LINES_MAX:-12}
 done
 git -C $D checkout -q -- . ; git -C $D clean -fdq
